@@ -34,7 +34,9 @@ def explore(run, max_pre, max_late, on_result, max_exec=None, root=()):
         prefix = stack.pop()
         points, choices, result = run(list(prefix))
         n += 1
-        on_result(choices, points, result)
+        if on_result(choices, points, result) == 'stop':
+            return {'executions': n, 'capped': True, 'left': len(stack),
+                    'stopped': True}
         pre = late = 0
         before = []
         for (kind, k, pflag), c in zip(points, choices):
